@@ -64,7 +64,7 @@ def pipeline_instance():
                 width = F // 3
                 start, shift = (F - width) // 2, max(1, width // 3)
             dhtv = pa.DHTVPermutationAlignment(stft_size=2 * (F - 1), segment_start=start, segment_width=width, segment_shift=shift,
-                                               main_iterations=20, sub_iterations=2, similarity_metric=metric)
+                                               main_iterations=20, sub_iterations=[2, 1][(inp['seed'] // 11) % 2], similarity_metric=metric)
         _, a, b = dhtv.alignment_plan[0]
         field = np.stack([rng.permutation(K) for _ in range(F)], axis=1)
         maj = rng.permutation(K)
@@ -106,6 +106,15 @@ def pipeline_instance():
                      'rank1_gev+gev', 'wmwf', 'wmwf+ban', 'rank1_pca+wmwf', 'rank1_gev+wmwf', 'rank1_pca+wmwf+ban', 'wmwf-selection-vector'):
             out_img = np.zeros((K, K, F, T), dtype=complex)
             out_noise = np.zeros((K, F, T), dtype=complex)
+            # every second scene designs the filters of all sources in one call on (K, F, D, D) stacks (explicit reference channel)
+            w_all = None
+            if inp['seed'] % 2 and ('souden' in name or name in ('wmwf', 'wmwf+ban', 'rank1_pca+wmwf', 'rank1_gev+wmwf', 'rank1_pca+wmwf+ban')):
+                tgt_all = np.ascontiguousarray(np.moveaxis(psd, 1, 0))
+                noi_all = psd.sum(1)[None] - tgt_all
+                kw_all = {'ref_channel': 0} if 'souden' in name else {'reference_channel': 0}
+                if inp['use_eig'] and name.startswith('rank1_gev'):
+                    kw_all['atf_kwargs'] = {'use_eig': True}
+                w_all = get_bf_vector(name, tgt_all, noi_all, **kw_all)           # (K, F, D)
             for k in range(K):
                 tgt = psd[:, k]
                 noi = psd.sum(1) - tgt
@@ -120,6 +129,8 @@ def pipeline_instance():
                     u = np.zeros(D)
                     u[0] = 1.0
                     w = bf.get_wmwf_vector(tgt, noi, channel_selection_vector=u if k % 2 == 0 else np.broadcast_to(u, (F, D)).copy())
+                elif w_all is not None:
+                    w = w_all[k]
                 else:
                     w = get_bf_vector(name, tgt, noi, **kw)           # (F, D)
                 shapes['w'] = w.shape
